@@ -1,8 +1,8 @@
 import sys
 from vlib.pyvc.driver import verify
-from vlib.contracts import curvesv, kv, misc, facade, gens, kvnew, facade2, kvor, funceval
+from vlib.contracts import curvesv, kv, misc, facade, gens, kvnew, facade2, kvor, funceval, kvquery
 bad=0; n=0
-for mod in (kv, misc, facade, gens, kvnew, curvesv, facade2, kvor, funceval):
+for mod in (kv, misc, facade, gens, kvnew, curvesv, facade2, kvor, funceval, kvquery):
     for c, m, q, v in mod.ALL:
         for o in verify(c, m, q, v):
             if "_notapplicable" in o or "_prooflost" in o: print(c.name, o); bad+=1; continue
